@@ -8,6 +8,7 @@ package main
 import (
 	"fmt"
 	"go/types"
+	"strings"
 
 	"golang.org/x/tools/go/ssa"
 )
@@ -87,7 +88,7 @@ func (g *G) doSend(ch *Chan, v value) {
 		if rs := ex.pendingReceivers(ch, g); len(rs) > 0 {
 			r := rs[0]
 			if len(rs) > 1 {
-				r = rs[ex.choose('c', len(rs))]
+				r = rs[ex.choose('i', len(rs))]
 			}
 			r.recvVal, r.recvOk, r.handed = v, true, true
 			if set, ok := r.pending.obj.(*recvSet); ok {
@@ -179,7 +180,7 @@ func (g *G) chanLen(ch *Chan) int {
 	if ch == nil {
 		return 0
 	}
-	g.visible(&pendOp{kind: "chanlen", obj: ch, enabled: alwaysEnabled})
+	g.visible(&pendOp{kind: "chanlen", obj: ch, ro: true, enabled: alwaysEnabled})
 	return len(ch.buf)
 }
 
@@ -220,7 +221,13 @@ func (g *G) selectOp(fr *frame, instr *ssa.Select) value {
 		return r
 	}
 	g.handed = false
-	g.visible(&pendOp{kind: "select", obj: set, enabled: func() bool {
+	var sendChans []interface{}
+	for _, c := range cases {
+		if c.send && c.ch != nil {
+			sendChans = append(sendChans, c.ch)
+		}
+	}
+	g.visible(&pendOp{kind: "select", obj: set, extra: sendChans, enabled: func() bool {
 		return g.handed || !instr.Blocking || len(ready()) > 0
 	}})
 	chosen := -1
@@ -236,7 +243,7 @@ func (g *G) selectOp(fr *frame, instr *ssa.Select) value {
 		if len(r) > 0 {
 			chosen = r[0]
 			if len(r) > 1 {
-				chosen = r[ex.choose('c', len(r))]
+				chosen = r[ex.choose('i', len(r))]
 			}
 			c := cases[chosen]
 			if c.send {
@@ -332,6 +339,7 @@ func (g *G) unlock(m *Mutex) {
 		panic(targetPanic{v: iface{t: g.ex.prog.runtimeErrorString, v: "sync: unlock of unlocked mutex"}, msg: "fatal error: sync: unlock of unlocked mutex"})
 	}
 	g.trace("unlock m%d", m.id)
+	g.ex.touch(m, false)
 	m.locked = false
 	m.owner = nil
 	g.dropHeld(m)
@@ -364,6 +372,7 @@ func (g *G) runlock(m *Mutex) {
 		panic(targetPanic{v: iface{t: g.ex.prog.runtimeErrorString, v: "sync: RUnlock of unlocked RWMutex"}, msg: "fatal error: sync: RUnlock of unlocked RWMutex"})
 	}
 	m.readers--
+	g.ex.touch(m, false)
 	g.dropHeld(m)
 	if g.ex.mon != nil {
 		m.rel = g.ex.mon.joinVC(m.rel, g.ex.mon.releaseVC(g))
@@ -417,7 +426,7 @@ func (g *G) atomicOp(p *value, kind string) *atomicCell {
 		rtPanic(g, "invalid memory address or nil pointer dereference")
 	}
 	a := g.ex.atomicAt(p)
-	g.visible(&pendOp{kind: "atomic." + kind, obj: a, enabled: alwaysEnabled})
+	g.visible(&pendOp{kind: "atomic." + kind, obj: a, ro: kind == "load" || strings.HasSuffix(kind, ".Load"), enabled: alwaysEnabled})
 	g.trace("atomic.%s", kind)
 	if g.ex.mon != nil {
 		g.ex.mon.acquireVC(g, a.rel)
@@ -450,7 +459,7 @@ func (n *CtxNode) method(name string) nativeFn {
 	case "Err":
 		return func(g *G, fr *frame, args []value) value {
 			c := args[0].(*CtxNode)
-			g.visible(&pendOp{kind: "ctx.Err", obj: c, enabled: alwaysEnabled})
+			g.visible(&pendOp{kind: "ctx.Err", obj: ctxObj(c), ro: true, enabled: alwaysEnabled})
 			cn := c.cancelNode()
 			if cn == nil || cn.err == nil {
 				return iface{}
@@ -523,12 +532,32 @@ func (ex *Exec) newCtx(parent *CtxNode, cancelable bool) *CtxNode {
 	return n
 }
 
+func ctxObj(c *CtxNode) interface{} {
+	if cn := c.cancelNode(); cn != nil {
+		return cn
+	}
+	return nil
+}
+
 func (n *CtxNode) cancel(g *G, err value) {
+	n.touchRec(g.ex)
 	var vc []int
 	if g.ex.mon != nil {
 		vc = g.ex.mon.releaseVC(g)
 	}
 	n.cancelRec(err, vc)
+}
+
+func (n *CtxNode) touchRec(ex *Exec) {
+	if n.canCancel {
+		ex.touch(n, false)
+		if n.done != nil {
+			ex.touch(n.done, false)
+		}
+	}
+	for _, c := range n.children {
+		c.touchRec(ex)
+	}
 }
 
 func (n *CtxNode) cancelRec(err value, vc []int) {
